@@ -22,6 +22,7 @@ claimed = {
  "C19": ("EndBlock accumulation over every present/absent/missing status pattern and symbolic stakes, reward, fees: present validators accrue floor(pot*stake/total), others nothing, accrued + remainder = pot; payout block: paid never exceeds accrued.", "§4 C19", "Locked-stake (x3) bonus branch of PayRewardsV5Fix is outside the registered bound."),
  "C20": ("isApplicationHalted / isUpdateCommissionsBlockV2 / isUpdateNetworkBlockV2 over symbolic validator stakes and every vote pattern against the integer predicate 3*voted > 2*total.", "§4 C20", "big.Float over exact reals in the quick tier; counterexamples are replayed natively with real big.Float."),
  "C28": ("EndBlock emission bookkeeping: below the cap emission grows by exactly the safe reward and the part validators do not get is credited to the zero address; at the cap nothing is minted.", "§4 C28", "Reward update window of BeginBlock and UpdatePriceFix are covered only as listed in evidence."),
+ "C26": ("Two-delivery harness on RunTx: the same signed bytes delivered twice; the second delivery must be rejected and change no balance of the payer nor the reward pool, whatever the first returned.", "§4 C26", "Send transactions paid in the base coin; the failed-first-delivery case is a recorded open finding (F4)."),
  "C27": ("Fee reaching the reward pool equals gasPrice x price-table entry (symbolic price table), per transaction type covered.", "§4 C27", ""),
 }
 
@@ -30,7 +31,7 @@ not_applicable = {
  "C29": "state sync: every component on the path (zlib, protobuf, cosmos-sdk snapshot store, IAVL exporter/importer, a goroutine) would be a stub, leaving no repository logic under the solver (DESIGN.md §5)",
 }
 pending = {k: "not claimed yet in this revision: harnesses under construction (see DESIGN.md); no check is registered, so nothing is asserted about it" for k in
-           ["C08","C10","C11","C12","C14","C15","C17","C21","C22","C23","C24","C26"]}
+           ["C08","C10","C11","C12","C14","C15","C17","C21","C22","C23","C24"]}
 
 def main():
     checks = []
